@@ -97,9 +97,9 @@ def build_impl(variant='normal', keep=False):
     """
     _sweep_stale()
     scratch = tempfile.mkdtemp(prefix='sknverif-%s-' % variant, dir=SCRATCH_ROOT)
-    with open(os.path.join(scratch, '.owner'), 'w') as fh:
-        fh.write(str(os.getpid()))
     if not keep:
+        with open(os.path.join(scratch, '.owner'), 'w') as fh:
+            fh.write(str(os.getpid()))
         atexit.register(shutil.rmtree, scratch, True)
     src = os.path.join(REPO, 'sknetwork')
     dst = os.path.join(scratch, 'sknetwork')
